@@ -13,6 +13,10 @@ READER_NOTE = ("Trusted: Coq kernel (Print Assumptions: closed under the global 
                "parse_protocol_only); extraction (ExtrOcamlBasic only) + OCaml driver; BytesIO / scripted socket as "
                "transports.")
 
+AXIOM_NOTE = (" The scaled-field theorems go through Flocq and the standard library's real numbers; Print Assumptions "
+              "reports exactly ClassicalDedekindReals.sig_not_dec, ClassicalDedekindReals.sig_forall_dec, "
+              "FunctionalExtensionality.functional_extensionality_dep and Classical_Prop.classic for them (declared by the "
+              "Coq standard library, none declared here); every other theorem is closed under the global context.")
 MSG_NOTE = ("Trusted: Coq kernel (Print Assumptions: closed under the global context); gen/Tables.v and gen/Consts.v are "
             "regenerated from /repo by harness/translate.py on every run (tables by import-and-walk, code constants by "
             "fail-closed AST templates, plus an AST digest of every modelled function as a drift detector); the "
@@ -32,21 +36,13 @@ CHECKS = {
              "correspondence). Python's repr/eval text is exercised, not modelled.",
         note=MSG_NOTE, ref="DESIGN.md §6 C01"),
     "C02": dict(
-        technique="Coq proof (per-field decoding contracts: integer field = LE/two's-complement of its slice, flag = bit slice, payload untouched by the walk) + extracted-model correspondence on every definition + independent spec decoder",
-        text="C02_int_field, C02_flag, C02_payload_unchanged (every definition, repeat count and budget). The "
-             "whole-definition statement (ordered attribute list = decoding of consecutive fields, suffixes, counts, "
-             "variants) is decided by the PARSE correspondence of the extracted model over every (mode, definition, "
-             "variant) x counts x fills x both bitfield views, plus an independent spec decoder run against the "
-             "implementation; the generic walk theorem is not proved yet (partial).",
+        technique='Coq proof (ghost trace of the definition walk: induction over the nested definition type for every definition list, payload, repeat count and bitfield view) + extracted-model correspondence on every definition + independent spec decoder',
+        text="C02_trace: for every definition list and payload the fields read tile the payload from offset 0 in definition order, each recorded value is the decoding (little-endian / two's complement / IEEE-754 / scaled+rounded / raw bitfield / bit slice) of exactly its own bytes, the payload is untouched and the attribute dictionary is the records applied in order; C02_shape: the records are the definition unfolded with index paths [1],[2],.. ([1;1].. nested); C02_int_field, C02_flag, C02_payload_unchanged. Which definition is selected for a multi-variant message, and the cfg key/value walk, are tied by correspondence (and C14/C16/C17). Searches: independent spec decoder vs the implementation over every (mode, definition, variant) x counts incl. mixed zero/non-zero counts x fills x both bitfield views.",
         note=MSG_NOTE, ref="DESIGN.md §6 C02"),
     "C03": dict(
-        technique="Coq proof (integer field and bit flag round-trip contracts) + refutation witnesses evaluated on the model for the recorded findings + BUILD correspondence / rebuild search on every keyword-constructible definition",
-        text="C03_int_field_roundtrip (every width), C03_flag_roundtrip; C03_scaled_refuted and C03_smallscale_refuted "
-             "are the witnesses of the recorded findings (truncating int(val/scale); scales below the 12-decimal grain). "
-             "Outside the recorded findings the rebuild property is decided by correspondence + search (parse a conforming "
-             "payload, feed all / a subset of the values back, compare payload and values). The generic build->parse "
-             "walk theorem is not proved (partial).",
-        note=MSG_NOTE, ref="DESIGN.md §6 C03"),
+        technique='Coq proof (build/parse simulation over the ghost trace for every definition list; real-number error analysis over Flocq for the scaled round trip) + refutation witnesses for the recorded findings + BUILD correspondence / rebuild search',
+        text="C03_payload (payload = concatenation of one encoding per field, keyword or nominal), C03_build_parse / _auto / C03_construct_roundtrip(_plain) (parsing the built payload gives back the very trace and attributes, whole payload consumed; no premise for integer/X/bitfield members), C03_int_field_roundtrip, C03_flag_roundtrip; C03_scaled_within_one: for EVERY raw value of up to 32 bits and EVERY float scale >= 1e-12, int(round(raw*s,12)/s) differs from raw by at most 1 (Flocq; four standard-library real-number axioms), with the table obligation C03_table_scales (every shipped float scale meets the premise or is a recorded sub-1e-12 scale) and C03_table_scaled_within_one. Exact equality is REFUTED on the unchanged tree (C03_scaled_refuted, C03_smallscale_refuted: recorded findings). Partial: the generic theorem needs 'static' definitions (no variable-by-size group / CH in the middle) and representable values (rt_ok); variant selection by correspondence.",
+        note=MSG_NOTE + AXIOM_NOTE, ref="DESIGN.md §6 C03"),
     "C04": dict(
         technique="Coq proof (constructor postcondition + payload byte-ness by walk invariant; textbook Fletcher sums) + finite table obligation + correspondence over all routes",
         text="C04_wellformed: for all three constructor routes (hence the config helpers), any message returned "
@@ -119,20 +115,13 @@ CHECKS = {
              "sampled.",
         note=MSG_NOTE, ref="DESIGN.md §6 C13"),
     "C14": dict(
-        technique="Coq proof (layout of config_set/del/poll by unfolding + constructor postcondition, unbounded in the item list) + finite table obligations by vm_compute over the whole generated database + correspondence",
-        text="C14_set/del/poll_layout + C14_items/keys_layout: for every item list, the payload is the documented header "
-             "followed in order by each LE32 key id (and value at the key type's width); C14_limit (>64 refused; limit "
-             "lifted from the code each run); table obligations over all 1242 keys: size codes, distinct names, distinct "
-             "ids and name<->id inverse except the recorded duplicate 0x10340014 (_partial); C14_unknown_key. Parsing of "
-             "CFG-VALSET/VALGET key lists: by correspondence and search (no theorem yet).",
+        technique='Coq proof (layout of config_set/del/poll for every item list; parse of CFG-VALSET / CFG-VALGET key lists by induction on the item list with a fuel lemma) + finite table obligations by vm_compute over the whole generated database + correspondence',
+        text="C14_set/del/poll_layout + C14_items/keys_layout (header, then each LE32 key id and value at the key type's width, in order, any length <= 64), C14_limit (> 64 refused; limit lifted from the code each run); table obligations over all keys: C14_sizecodes, C14_names_nodup, C14_ids_nodup_partial and C14_lookup_inverse_partial (all but the recorded duplicate id 0x10340014), C14_unknown_key; parse side: C14_items_walk, C14_valget_parse, C14_valset_parse (one attribute per key, named by the key or CFG_0x.., equal to its value, for every well-typed item list) and C14_config_set_parse (what config_set builds, parse exposes).",
         note=MSG_NOTE, ref="DESIGN.md §6 C14"),
     "C15": dict(
-        technique="Coq proof (constructor raises only UBX errors for ANY keyword values; integer/X refusal; flag range check + bit isolation by Z.testbit extensionality) + BUILD correspondence over a value pool + search with an independent spec decoder",
-        text="C15_no_foreign (all pyval keyword values, every definition shipped), C15_int_refused, C15_x_length, "
-             "C15_flag_range, C15_flag_isolation; C15_clen_refuted is the witness of the recorded finding (C-type "
-             "values are not length-checked). 'Payload length = implied length and every field decodes to the supplied "
-             "value' for whole definitions is decided by correspondence + search (partial: no generic walk theorem).",
-        note=MSG_NOTE, ref="DESIGN.md §6 C15"),
+        technique='Coq proof (constructor raises only UBX errors for ANY keyword values; payload length and per-field byte isolation over the ghost trace; integer/X refusal; flag range + bit isolation; Flocq error analysis for scaled fields) + BUILD correspondence over a typed value pool + search with an independent spec decoder',
+        text="C15_no_foreign (all pyval keyword values, every shipped definition), C15_build_length / C15_construct_length (payload length = length implied by the definition and the counts), C15_field_bytes (each field's bytes are a function of its own value only), C15_int_refused, C15_x_length, C15_flag_range, C15_flag_isolation; C15_scaled_within_unit: a finite float supplied for a scaled field of up to 32 bits comes back from parse within one unit of resolution (x 1.001 + 1e-12) for every value and every positive scale (Flocq; four standard-library real-number axioms). C15_clen_refuted is the witness of the recorded finding (C-type values are not length-checked).",
+        note=MSG_NOTE + AXIOM_NOTE, ref="DESIGN.md §6 C15"),
     "C16": dict(
         technique="Coq: executable grammar wf_def evaluated by vm_compute over the whole generated tables (finite domain = the tables as found in the working tree) + nominal build/parse of every entry inside Coq; translator is the tie",
         text="C16_tables_wf / C16_entries_wf: every entry of the GET/SET/POLL tables obeys the documented grammar (types, "
@@ -149,12 +138,8 @@ CHECKS = {
              "with svid); C17_full_refuted gives the witnesses.",
         note=MSG_NOTE, ref="DESIGN.md §6 C17"),
     "C18": dict(
-        technique="Coq proof (integer codec round trip for every width by two's-complement arithmetic; X/C/nomval; R8 bit round trip; Fletcher closed form; get_bits) + exhaustive/boundary correspondence incl. the float engine",
-        text="C18_int_rt / C18_int_refuse / C18_bytes_rt for E,I,L,U of every width; C18_x_rt/_refuse, C18_c_rt, "
-             "C18_nomval; C18_r8_bits_rt (all 2^64 patterns but non-canonical NaNs); C18_fletcher_spec, C18_isvalid; "
-             "C18_get_bits. Partial: R4 rounding and val2sphp are modelled and tied by correspondence only; "
-             "utc2itow/itow2utc (datetime) are checked on the implementation only; att2idx/att2name modelled for "
-             "digit-only suffixes, by correspondence.",
+        technique="Coq proof (integer codec round trip for every width; X/C/nomval; R8 bit round trip; Fletcher closed form; get_bits; att2idx/att2name invert the walk's suffixing by induction over decimal printing) + exhaustive/boundary correspondence incl. the float engine and long inputs",
+        text="C18_int_rt / C18_int_refuse / C18_bytes_rt for E,I,L,U of every width; C18_x_rt/_refuse, C18_c_rt, C18_nomval; C18_r8_bits_rt (all 2^64 patterns but non-canonical NaNs); C18_fletcher_spec, C18_isvalid; C18_get_bits; C18_att2name / C18_att2idx (every base name without '_', every index path, any depth and magnitude). Partial: R4 rounding and val2sphp are modelled bit-exactly and tied by correspondence only; utc2itow/itow2utc (datetime arithmetic) are checked on the implementation only (dense sample of the week); protocol() is proved equal to the reader's dispatch in C07/C11.",
         note=MSG_NOTE, ref="DESIGN.md §6 C18"),
     "C12": dict(
         technique="Coq proof (list induction over the framing trace for the three error policies) + correspondence incl. handler calls and raised exception",
